@@ -752,7 +752,7 @@ class electrical_signal():
         if self.noise is None and other.noise is None:
             return self.__class__(self.signal + other.signal, dtype=dtype)
         elif self.noise is None:
-            return self.__class__(self.signal + other.signal, other.noise, dtype=dtype)
+            return self.__class__(self.signal + other.signal, other.noise + np.zeros_like(self.signal), dtype=dtype)
         elif other.noise is None:
             return self.__class__(self.signal + other.signal, self.noise, dtype=dtype)
         return self.__class__(self.signal + other.signal, self.noise + other.noise, dtype=dtype)
@@ -784,7 +784,7 @@ class electrical_signal():
         if self.noise is None and other.noise is None:
             return self.__class__(self.signal - other.signal, dtype=dtype)
         elif self.noise is None:
-            return self.__class__(self.signal - other.signal, -other.noise, dtype=dtype)
+            return self.__class__(self.signal - other.signal, -other.noise + np.zeros_like(self.signal), dtype=dtype)
         elif other.noise is None:
             return self.__class__(self.signal - other.signal, self.noise, dtype=dtype)
         return self.__class__(self.signal - other.signal, self.noise - other.noise, dtype=dtype)
@@ -801,7 +801,7 @@ class electrical_signal():
         if self.noise is None and other.noise is None:
             return self.__class__(-self.signal + other.signal, dtype=dtype)
         elif self.noise is None:
-            return self.__class__(-self.signal + other.signal, other.noise, dtype=dtype)
+            return self.__class__(-self.signal + other.signal, other.noise + np.zeros_like(self.signal), dtype=dtype)
         elif other.noise is None:
             return self.__class__(-self.signal + other.signal, -self.noise, dtype=dtype)
         return self.__class__(-self.signal + other.signal, -self.noise + other.noise, dtype=dtype)
@@ -830,7 +830,7 @@ class electrical_signal():
         if self.noise is None and other.noise is None:
             return self.__class__(self.signal * other.signal, dtype=dtype)
         elif self.noise is None:
-            return self.__class__(self.signal * other.signal, other.noise, dtype=dtype)
+            return self.__class__(self.signal * other.signal, other.noise + np.zeros_like(self.signal), dtype=dtype)
         elif other.noise is None:
             return self.__class__(self.signal * other.signal, self.noise, dtype=dtype)
         return self.__class__(self.signal * other.signal, self.noise * other.noise, dtype=dtype)
